@@ -240,4 +240,5 @@ fn csb(b: &[u8]) -> CString { CString::new(b.to_vec()).expect("generator produce
 
 include!("../c19/parity.rs");
 include!("../c19/plumb.rs");
+include!("../c19/pending.rs");
 include!("../c19/main.rs");
